@@ -35,9 +35,23 @@ Fixpoint run07_ticks (u : univ) (q : iq) (ticks : list ltick) : bool :=
       state_eqb q' u t && run07_ticks u q' r
   end.
 
+(* every node the lookup ever learned (initial candidates and every node listed by a processed response),
+   judged without the model's insertion code: it was queried, or at least 20 final candidates precede it
+   in (secure first, XOR) order, or it was legitimately merged with an existing candidate (same id in the
+   same security class, or Node::already_exists on the same ip) *)
+Definition learned_closure (target : id) (cl : list node) (visited : list (N * N)) (learned : list node) : bool :=
+  forallb (fun n =>
+    existsb (addr_eqb (naddr n)) visited
+    || (20 <=? length (filter (fun m => match cn_cmp target n m with Lt => true | _ => false end) cl))%nat
+    || (negb (existsb (node_same n) cl)
+        && (already_exists n cl || existsb (fun m => match cn_cmp target n m with Eq => true | _ => false end) cl)))
+    learned.
+
 (* the property on the node's own final state *)
-Definition closure_pb (target : id) (u : univ) (last : ltick) (reqs : list N) (is_find : bool) (result : list nat) : bool :=
+Definition closure_pb (target : id) (u : univ) (last : ltick) (reqs : list N) (is_find : bool) (result : list nat)
+    (learned : list node) : bool :=
   let cl := map (unode u) (t_closest last) in
+  learned_closure target cl (t_visited last) learned &&
   (* every one of the 20 closest candidates was queried *)
   forallb (fun n => existsb (addr_eqb (naddr n)) (t_visited last)) (firstn 20 cl)
   (* candidates in (secure first, XOR) order *)
@@ -60,7 +74,9 @@ Definition check07 (c : c07case) : list N :=
       let q0 := iq_of tg u ic ir iv in
       (if run07_ticks u q0 ticks then [] else [1]) ++
       (match rev ticks with
-       | last :: _ => if closure_pb tg u last reqs isf result then [] else [2]
+       | last :: _ =>
+           let learned := map (unode u) (ic ++ flat_map (fun t => match t_resp t with Some (ns, _) => ns | None => [] end) ticks) in
+           if closure_pb tg u last reqs isf result learned then [] else [2]
        | [] => [2]
        end)
   end.
